@@ -2,15 +2,14 @@
 META = {
     "level": 'fault_enumeration',
     "technique": 'call-log oracle on the real ShareCrawler (and LeaseCheckingCrawler) driven by virtual time: enumerated subsets of time-slice interruption points, restarts at every slice boundary, and process kills at every hook and every file-system step of save_state, each followed by a restart from the state file',
-    "text": 'Runs the real allmydata.storage.crawler.ShareCrawler (recording subclass; service started, slices fired by the virtual reactor) on a fabricated share directory with <=6 buckets over the first, a middle and the last of the 1024 prefixes. storage.crawler.time is a virtual clock that jumps past cpu_slice at chosen points, forcing TimeSliceExceeded there. Enumerated: every subset of interruption points {after each bucket, end of each non-empty prefix and of its neighbour prefixes} for each layout (thorough: all subsets of every layout, up to 2^13, x all 3 restart modes for the <=10-point layouts and a rotating mode for the 13-point ones; quick: all subsets of the <=7-point layouts with a rotating mode, seeded samples of the larger ones), single interruptions at prefix ends across the whole ring, and single kills (crawler object abandoned, new crawler built on the same state file) before/after every process_bucket, in every started_cycle/finished_prefix/finished_cycle hook and at 5 steps inside every save_state (before the temp file is opened, temp file empty, half written, fully written but not renamed, after rename), under 4 interruption schedules; plus seeded multi-fault runs with buckets added/removed mid-cycle. A second family runs the real LeaseCheckingCrawler on real shares and restarts it from its saved state mid-cycle. Oracle per completed cycle: every bucket present throughout is passed to process_bucket exactly once if no kill happened inside a slice of that cycle, at least once otherwise; process_bucket arguments are consistent; last-cycle-finished (get_state() and the JSON state file) advances by exactly one per completed cycle and never goes back.',
+    "text": 'Runs the real allmydata.storage.crawler.ShareCrawler (recording subclass; service started, slices fired by the virtual reactor) on a fabricated share directory with <=6 buckets over the first, a middle and the last of the 1024 prefixes. storage.crawler.time is a virtual clock that jumps past cpu_slice at chosen points, forcing TimeSliceExceeded there. Enumerated: every subset of interruption points {after each bucket, end of each non-empty prefix and of its neighbour prefixes} for each layout (thorough: all subsets of every layout, up to 2^13, x all 3 restart modes for the <=10-point layouts and a rotating mode for the 13-point ones; quick: all subsets of the <=6-point layouts with a rotating mode, seeded samples of the larger ones), single interruptions at prefix ends across the whole ring, and single kills (crawler object abandoned, new crawler built on the same state file) before/after every process_bucket, in every started_cycle/finished_prefix/finished_cycle hook and at 5 steps inside every save_state (before the temp file is opened, temp file empty, half written, fully written but not renamed, after rename), under 4 interruption schedules; plus seeded multi-fault runs with buckets added/removed mid-cycle. A second family runs the real LeaseCheckingCrawler on real shares and restarts it from its saved state mid-cycle. Oracle per completed cycle: every bucket present throughout is passed to process_bucket exactly once if no kill happened inside a slice of that cycle, at least once otherwise; process_bucket arguments are consistent; last-cycle-finished (get_state() and the JSON state file) advances by exactly one per completed cycle and never goes back.',
     "note": 'Trusts the recording subclass, the virtual clock shim and the emulation of a crash inside save_state (the harness performs the same open/write/rename sequence as _dump_json_to_file + move_into_place and stops at the chosen step; torn writes below file granularity are C29 territory). Buckets added or removed mid-cycle are not judged.',
 }
 LEVEL = "fault_enumeration"
-BUDGET = {"quick": 52, "thorough": 280}   # quick is a fixed case list (~35 s); the budget is only a guard
+BUDGET = {"quick": 45, "thorough": 420}   # quick is a fixed case list (~35 s); the budget is only a guard
 SHARDS = {"quick": 1, "thorough": 14}
 
 import collections
-import itertools
 import json
 import os
 import shutil
@@ -436,6 +435,10 @@ def run(ck):
                                                              "process_bucket_calls": sum(1 for e in h.log if e[0] == "bucket")})
 
     def guarded(h, cls, key, plan, body):
+        with ck.watchdog(180, "run %r" % (key,)):
+            guarded_(h, cls, key, plan, body)
+
+    def guarded_(h, cls, key, plan, body):
         try:
             try:
                 h.start()
@@ -471,24 +474,26 @@ def run(ck):
     layouts_small = [(1, 1, 1), (2, 0, 1), (0, 0, 1), (1, 0, 0), (0, 3, 0), (0, 0, 0), (3, 0, 0), (0, 0, 3)]
     layouts_big = [(2, 2, 2), (1, 4, 1), (3, 0, 3), (6, 0, 0), (0, 0, 6), (0, 6, 0), (2, 1, 3), (4, 0, 1)]
     complete = True
+    if ck.tier == "quick":
+        layouts_big = layouts_big[:4] + layouts_big[6:7]
     for layout in layouts_small + layouts_big:
         site = Site(layout)
         try:
             pts = points_for(layout, site.buckets)
             npts = len(pts)
-            full = (ck.tier == "thorough") or npts <= 7
+            full = (ck.tier == "thorough") or npts <= 6
             if full:
                 masks = range(1 << npts)
             else:
                 r = ck.rng("e1", layout)
                 masks = sorted(set([0, (1 << npts) - 1] +
-                                   [r.getrandbits(npts) for _ in range(60 if layout == (1, 1, 1) else 20)]))
+                                   [r.getrandbits(npts) for _ in range(40 if layout == (1, 1, 1) else 14)]))
             for mask in masks:
                 modes = MODES if (ck.tier == "thorough" and npts <= 10) else (MODES[(mask + ck.seed) % 3],)
                 for mode in modes:
                     if not mine():
                         continue
-                    if ck.out_of_time():
+                    if (not ck.more(min_cases=10 ** 9)):
                         complete = False
                         break
                     chosen = [pts[i] for i in range(npts) if mask >> i & 1]
@@ -502,12 +507,11 @@ def run(ck):
                             "restart_mode": mode}
                     guarded(h, "interrupt-subset", ("s", layout, mask, mode), plan,
                             lambda h, mode=mode: h.run_until(2, mode))
-                if ck.out_of_time():
+                if (not ck.more(min_cases=10 ** 9)):
                     complete = False
                     break
         finally:
             site.close()
-    ck.extra["subset_enumeration_complete"] = bool(complete and ck.tier == "thorough")
 
     # ------------------------------------------------------------ E2 single interruption at prefix ends round the ring
     site = Site((2, 2, 2))
@@ -515,7 +519,7 @@ def run(ck):
         step = 1 if ck.tier == "thorough" else 23
         idxs = sorted(set(list(range((ck.seed * 7) % step, 1024, step)) + [0, 1, 516, 517, 518, 1022, 1023]))
         for i in idxs:
-            if not mine() or ck.out_of_time():
+            if not mine() or (not ck.more(min_cases=10 ** 9)):
                 continue
             h = site.harness()
             h.jumps.add((0, "prefix-end", prefixes[i]))
@@ -550,7 +554,7 @@ def run(ck):
                    ("kill-sleeping-restart", "kill-sleeping", "after-every-bucket"),
                    ("stopService-restart", "stop", "every-prefix-point"), ("same-object", None, "none")]
     for (name, mode, sched) in lease_plans:
-        if not mine() or ck.out_of_time():
+        if not mine() or (not ck.more(min_cases=10 ** 9)):
             continue
         d = tempfile.mkdtemp(prefix="vf-")
         try:
@@ -593,7 +597,7 @@ def run(ck):
         try:
             pts = points_for(layout, site.buckets)
             for sched in ("none", "after-every-bucket", "every-prefix-point", "alternate"):
-                if ck.tier == "quick" and layout == (2, 2, 2) and sched != "alternate":
+                if ck.tier == "quick" and ((layout == (2, 2, 2)) != (sched == "alternate")):
                     continue
                 chosen = schedule(sched, pts)
 
@@ -619,7 +623,7 @@ def run(ck):
                 for kp in kpoints:
                     if not mine():
                         continue
-                    if ck.out_of_time():
+                    if (not ck.more(min_cases=10 ** 9)):
                         kill_complete = False
                         break
                     h = site.harness()
@@ -635,18 +639,20 @@ def run(ck):
                         ck.observe("planned-kill-point-not-reached")
         finally:
             site.close()
-    ck.extra["kill_enumeration_complete"] = bool(kill_complete)
+    ck.extra["enumeration"] = {"tier": ck.tier, "interruption_subsets_complete": bool(complete),
+                               "kill_points_complete": bool(kill_complete),
+                               "note": "per shard; ck.exhaustive is the AND over all shards"}
 
     # ------------------------------------------------------------ E4 seeded multi-fault runs, dynamic buckets
     rng = ck.rng("c27-mix")
-    nmix = 60 if ck.tier == "quick" else 1500
+    nmix = 40 if ck.tier == "quick" else 1500
     for i in range(nmix):
         layout = tuple(rng.choice([0, 0, 1, 1, 2, 3]) for _ in range(3))
         while sum(layout) > 6:
             layout = tuple(max(0, x - 1) for x in layout)
         if not mine():
             continue
-        if ck.out_of_time():
+        if (not ck.more(min_cases=10 ** 9)):
             break
         site = Site(layout)
         try:
@@ -719,3 +725,15 @@ def run(ck):
     ck.require_reach("time-slice-forced", "kill-inside-slice", "kill-inside-save-state",
                      "restart-after-stopService", "restart-after-kill-while-sleeping",
                      "duplicate-work-after-kill", "lease-checker-family")
+
+
+# MUST_CATCH  (selftest/breaks_c27.py; run on a base = /repo/src + the proposed expirer fix, quick tier)
+#  unchanged tree: LeaseCheckingCrawler restarted mid-cycle       -> lease-checker-resume-histogram-not-a-dict    CAUGHT
+#  c27-resume-le-to-lt                                            -> bucket-processed-twice-without-kill          CAUGHT
+#  c27-last-complete-bucket-not-reset-at-cycle-end                -> bucket-skipped-in-cycle                      CAUGHT
+#  c27-cycle-counter-incremented-twice                            -> cycle-number-not-incremented-by-one (+skips) CAUGHT
+#  c27-bucket-cache-reused-across-prefixes                        -> bucket-skipped-in-cycle, wrong-arguments     CAUGHT
+#  c27-state-file-written-in-place (kill while half written)      -> state-file-unreadable, cycle number regress  CAUGHT
+#  c27-timeslice-check-before-recording-bucket                    -> bucket-processed-twice-without-kill          CAUGHT
+#  c27-prefix-marked-complete-before-processing                   -> bucket-skipped-in-cycle                      CAUGHT
+#  c27-last-prefix-index-not-reset-at-cycle-end                   -> bucket-skipped-in-cycle                      CAUGHT
